@@ -593,5 +593,21 @@ PROPS["C12"]["explanation"] += " (NULLSKIP) every descriptor walk of HTIfind_dd 
 PROPS["C20"]["rules"] = PROPS["C20"]["rules"] + [rules_limits.rule_counter_wrap_guard]
 PROPS["C20"]["explanation"] += " (COUNTERWRAP) every increment of a 16-bit counter field is reached only on paths that compared the field with a limit."
 
+PROPS["C20"]["rules"] = PROPS["C20"]["rules"] + [rules_sd.rule_rank_fits_arrays]
+PROPS["C20"]["explanation"] += " (RANKBOUND) the rank SDcreate admits is no larger than the smallest per-dimension array the SD routines fill up to the rank."
+
+PROPS["C07"]["rules"] = PROPS["C07"]["rules"] + [rules_loops.rule_old_length_before_overwrite]
+PROPS["C07"]["explanation"] += " (OLDLEN) VSsetname/VSsetclass measure the current string before the new one is copied over it, so a longer header is recognised."
+
+PROPS["C20"]["rules"] = PROPS["C20"]["rules"] + [rules_limits.rule_limit_test_alive]
+PROPS["C20"]["explanation"] += " (LIMITDEAD) a value compared with a named limit is not narrowed below that limit in the assignment that feeds the test."
+PROPS["C07"]["rules"] = PROPS["C07"]["rules"] + [rules_limits.rule_limit_test_alive]
+
+PROPS["C19"]["rules"] = PROPS["C19"]["rules"] + [rules_tools.rule_float_difference_kept_wide]
+PROPS["C19"]["explanation"] += " (FLTNARROW) hdiff keeps |a-b| of float64 elements in float64 up to the comparison with the limit."
+
+PROPS["C19"]["rules"] = PROPS["C19"]["rules"] + [rules_tools.rule_scale_siblings]
+PROPS["C19"]["explanation"] += " (SCALESIB) the per-type copies of hdfimport's scale reader use the same dimension for the same scale."
+
 NOT_APPLICABLE = {}
 
